@@ -152,10 +152,10 @@ func newWorker(seed int64) (*worker, error) {
 	if err != nil {
 		return nil, err
 	}
-	b := &Binding{T: t, Owner: c.Signer.String(), BaseDSeq: 7, FreshDSeq: uint64(1000 + seed%100000), Seed: seed}
+	b := &Binding{T: t, Owner: c.Signer.String(), BaseDSeq: BaseDSeq, FreshDSeq: uint64(1000 + seed%100000), Seed: seed}
 	tl := t.TLA()
 	lin := func(name string) AVal { return AVal{K: "lin", A: tl[name].(int64)} }
-	base := AMsg{Idc: "exists", Version: t.VersionLen, Deposit: lin("MinDeposit"), DDenom: t.DepDenom,
+	base := AMsg{Kind: "create", Idc: "exists", Version: t.VersionLen, Deposit: lin("MinDeposit"), DDenom: t.DepDenom,
 		Groups: []AGroup{{Name: "base", Units: []AUnit{{CPU: lin("MinUnitCPU"), Mem: lin("MinUnitMem"), Sto: lin("MinUnitSto"),
 			Count: tl["MinUnitCount"].(int64), Price: lin("MinUnitPrice"), PDenom: t.NetDenom}}}}}
 	msg, err := b.Concretise(base, versionBytes(seed))
@@ -182,15 +182,13 @@ func (w *worker) exec(in In) (Line, error) {
 		return ln, fmt.Errorf("message %d: %v", in.ID, err)
 	}
 	// what the node would decode: judge that, not the script
-	bz, err := msg.Marshal()
+	wire, _, err := decode(msg)
 	if err != nil {
-		return ln, fmt.Errorf("message %d does not encode: %v", in.ID, err)
+		return ln, fmt.Errorf("message %d does not survive the wire: %v", in.ID, err)
 	}
-	wire := &dtypes.MsgCreateDeployment{}
-	if err := wire.Unmarshal(bz); err != nil {
-		return ln, fmt.Errorf("message %d does not decode: %v", in.ID, err)
+	if ln.Msg, err = w.b.Abstract(wire); err != nil {
+		return ln, err
 	}
-	ln.Msg = w.b.Abstract(wire)
 	want := in.M
 	if want.Groups == nil {
 		want.Groups = []AGroup{}
